@@ -53,6 +53,13 @@ def run(ctx):
 
     # ------------------------------------------------------------------ R1
     ctx.rule("R1", "the output file is opened only after the pre-flight checks", "a pre-flight rejection after open() truncates an existing file")
+    # a conversion warning that the caller escalated to an error must be raised inside prepare_dump (where it becomes a
+    # PrepareDumpError before the file is opened): nothing wrapped around the API functions may change the warning filters
+    for f in (d1, dm, wi):
+        for g in [f] + [d_ for dd in f.decorators for r_ in [prog.resolve_expr(None, f.module, dd.func if isinstance(dd, ast.Call) else dd)] if r_ and r_[0] == "func" for d_ in [r_[1]] + list(r_[1].nested.values())]:
+            for cs in g.calls:
+                if cs.external in ("warnings.simplefilter", "warnings.filterwarnings", "warnings.resetwarnings"):
+                    ctx.violate("R1", f"{g.name} changes the warning filters ({cs.external}) around {f.name}: a PrepareDumpWarning the caller turned into an error is no longer raised during the pre-flight but re-issued after the file was overwritten", g, cs.node)
     for f, selector in ((d1, sel), (dm, sel), (wi, seli)):
         cfg = cfg_of(f)
         pm = prog.parents(f)
@@ -353,6 +360,89 @@ def run(ctx):
         from .segpred import check_segmentation
 
         check_segmentation(ctx, "R5", "R5")
+    ctx.rule("R7", "variants a writer does not implement are rejected by its pre-flight (evaluated)", "an object the writer can only answer with 'not implemented' gets past the pre-flight: the target file is truncated before the failure")
+    check_unimplemented_variants(ctx, "R7")
+
+
+def check_unimplemented_variants(ctx, rid):
+    """For every `raise NotImplementedError` that a writer reaches by comparing a value taken from the object with a
+    constant, the module's prepare_dump -- evaluated on an abstract object carrying that value -- raises PrepareDumpError."""
+    from ..accessors import AccessorEval, Raised, Rec
+    from ..symarr import NotSymbolic
+
+    prog = ctx.prog
+    iocls = prog.cls("iodata.iodata.IOData")
+    n = 0
+    for short, m in prog.format_modules().items():
+        do = prog.funcs.get(f"{m.name}.dump_one")
+        pd = prog.funcs.get(f"{m.name}.prepare_dump")
+        if do is None:
+            continue
+        dparam = do.posparams[1]
+        pm = prog.parents(do)
+        for r in [x for x in do.own_nodes() if isinstance(x, ast.Raise) and raises_class(x) == "NotImplementedError"]:
+            # the innermost if-test that guards the raise
+            cur, test = r, None
+            while id(cur) in pm:
+                par = pm[id(cur)]
+                if isinstance(par, ast.If) and cur in par.body:
+                    test = par.test
+                    break
+                cur = par
+            if not (isinstance(test, ast.Compare) and len(test.ops) == 1 and isinstance(test.ops[0], ast.Eq) and isinstance(test.left, ast.Name) and isinstance(test.comparators[0], ast.Constant)):
+                raise AnalysisError(f"{do.qualname}: `raise NotImplementedError` at line {r.lineno} is not guarded by `<name> == <constant>`")
+            var, value = test.left.id, test.comparators[0].value
+            defs = [x for x in do.own_nodes() if isinstance(x, ast.Assign) and len(x.targets) == 1 and isinstance(x.targets[0], ast.Name) and x.targets[0].id == var]
+            if len(defs) != 1:
+                raise AnalysisError(f"{do.qualname}: `{var}` has {len(defs)} definitions")
+            src = defs[0].value
+            fields = {name: None for name in iocls.fields}
+            fields["extra"] = {}
+            if isinstance(src, ast.Subscript) and isinstance(src.value, ast.Attribute) and isinstance(src.value.value, ast.Name) and src.value.value.id == dparam and isinstance(src.slice, ast.Constant):
+                holder = src.value.attr
+                fields[holder] = {src.slice.value: value}
+                what = f"{dparam}.{holder}[{src.slice.value!r}] == {value!r}"
+            elif isinstance(src, ast.Call) and isinstance(src.func, ast.Attribute) and src.func.attr == "get" and isinstance(src.func.value, ast.Attribute) and isinstance(src.func.value.value, ast.Name) and src.func.value.value.id == dparam and src.args and isinstance(src.args[0], ast.Constant):
+                holder = src.func.value.attr
+                fields[holder] = {src.args[0].value: value}
+                what = f"{dparam}.{holder}[{src.args[0].value!r}] == {value!r}"
+            elif isinstance(src, ast.Attribute) and isinstance(src.value, ast.Name) and src.value.id == dparam:
+                fields[src.attr] = value
+                what = f"{dparam}.{src.attr} == {value!r}"
+            else:
+                raise AnalysisError(f"{do.qualname}: `{var} = {src_of(src)}` is not a value taken from the object")
+            n += 1
+            if pd is None:
+                ctx.violate(rid, f"{short}.dump_one raises NotImplementedError for {what}, and the module has no prepare_dump to reject it before the file is opened", do, r)
+                continue
+            try:
+                AccessorEval(prog, iocls).run_free(pd, [Rec(iocls, **fields), False, "FILE"], {})
+                got = None
+            except Raised as exc:
+                got = exc.args[0]
+            except NotSymbolic as exc:
+                raise AnalysisError(f"{pd.qualname} is outside the accessor-evaluation whitelist: {exc}") from exc
+            # the selector itself missing from the object: the writer cannot even dispatch (documented rejection reason)
+            if "[" in what and got == "PrepareDumpError":
+                f2 = dict(fields)
+                f2[holder] = {}
+                try:
+                    AccessorEval(prog, iocls).run_free(pd, [Rec(iocls, **f2), False, "FILE"], {})
+                    got2 = None
+                except Raised as exc:
+                    got2 = exc.args[0]
+                except NotSymbolic as exc:
+                    raise AnalysisError(f"{pd.qualname} is outside the accessor-evaluation whitelist: {exc}") from exc
+                key_ = what.split("[")[1].split("]")[0]
+                if got2 != "PrepareDumpError":
+                    ctx.violate(rid, f"{short}.dump_one selects what to write by {dparam}.{holder}[{key_}], but prepare_dump {'accepts' if got2 is None else 'raises ' + got2 + ' for'} an object without that key: the failure comes after the file was opened", pd, pd.node, construct=f"{short}: missing {holder}[{key_}] not rejected pre-flight")
+                else:
+                    ctx.ok(rid, f"{short}: an object without {holder}[{key_}] is rejected by prepare_dump with PrepareDumpError", f"{pd.module.relpath}:{pd.lineno}")
+            if got == "PrepareDumpError":
+                ctx.ok(rid, f"{short}: {what} (not implemented by dump_one) is rejected by prepare_dump with PrepareDumpError", f"{pd.module.relpath}:{pd.lineno}")
+            else:
+                ctx.violate(rid, f"{short}.dump_one raises NotImplementedError for {what}, but prepare_dump {'accepts the object' if got is None else 'raises ' + got}: the file is opened (truncated) before the failure", pd, pd.node, construct=f"{short}: {what} not rejected pre-flight")
+    ctx.floor(rid, n, 1, "not-implemented variants in writers")
 
 
 def _preflight_summary(prog, h, chk, depth=0):
